@@ -1665,6 +1665,18 @@ func Run(c *vh.Ctx) {
 			}
 			return
 		}
+		if k.Kind == "conc" {
+			var cc concCase
+			if err := json.Unmarshal(c.ReplayRaw, &cc); err != nil {
+				c.Note("bad replay: %v", err)
+				return
+			}
+			h.doConc(nil, &cc)
+			if h.m != nil {
+				c.Res.ModelLines = h.m.Lines
+			}
+			return
+		}
 		if k.Kind == "ctor" {
 			var cc ctorCase
 			if err := json.Unmarshal(c.ReplayRaw, &cc); err != nil {
@@ -1696,9 +1708,9 @@ func Run(c *vh.Ctx) {
 		}
 		return
 	}
-	c.Res.Rule = "call: one registered Go function (reflect.MakeFunc) or Bag method invoked by one script; distinct = distinct (path, signature, argument values, returned value, argument passing mode); non-trivial = the signature has at least one parameter or a result. gen: one utils.Convert[T]/ConvertFromIndex[T] application; distinct = (function, T, value). hist: one call inside a history of registrations and calls run in a fresh process; distinct = (callee, VM, route, arguments, returned value)"
+	c.Res.Rule = "call: one registered Go function (reflect.MakeFunc) or Bag method invoked by one script; distinct = distinct (path, signature, argument values, returned value, argument passing mode); non-trivial = the signature has at least one parameter or a result. gen: one utils.Convert[T]/ConvertFromIndex[T] application; distinct = (function, T, value). hist: one call inside a history of registrations and calls run in a fresh process; distinct = (callee, VM, route, arguments, returned value). conc: several calls of one callee in flight; distinct = (route, callee, callers, schedule / slot / depth / rounds)"
 	nsig := 0
-	if os.Getenv("C17_ONLY") != "hist" { // development aid: only the history stream
+	if os.Getenv("C17_ONLY") == "" { // development aid: C17_ONLY=hist|conc runs only that stream
 		nsig = h.streamSupported(c.N(24, 200))
 		h.streamAllTypes()
 		h.streamMixed(c.N(6000, 400000))
@@ -1708,9 +1720,16 @@ func Run(c *vh.Ctx) {
 		h.streamCtor(c.N(300, 5000))
 		h.streamGeneric(c.N(30, 1500))
 	}
-	nh, nhc := h.streamHistories(c.N(12, 150), c.N(300, 2000))
+	nconc := 0
+	if only := os.Getenv("C17_ONLY"); only == "" || only == "conc" {
+		nconc = h.streamConc()
+	}
+	nh, nhc := 0, 0
+	if os.Getenv("C17_ONLY") != "conc" {
+		nh, nhc = h.streamHistories(c.N(12, 150), c.N(300, 2000))
+	}
 	c.Res.Exhaustive = true
-	c.Res.ExhaustiveWhat = fmt.Sprintf("all %d signatures of arity 0..3 over {string,bool,int,int64,float64} with each result kind or none (whole boundary pool at arity 0/1, diagonal + seeded tuples above); every one of %d Go types (sized, defined, slice/interface/pointer/map/struct) as single parameter x every pool value of every class, as identity, as result x its pool, and all %d ordered pairs as two parameters; %d Bag methods x pool; reflective constructor of Rec (6 fields) x diagonal of the pools; utils.Convert/ConvertFromIndex for %d target types x every pool value; %d histories (%d calls) over %d struct types sharing %d method names with different arities / parameter types / result types / receivers (plus functions sharing names across VMs), each in a fresh process: for every shared name an Eulerian tour of its callees (every ordered pair adjacent) started at every callee, forwards and backwards, interleaved over two VMs and TempVMs, plus seeded random histories", nsig, len(allTypes), len(allTypes)*len(allTypes), len(bagMethods), len(genProbes), nh, nhc, len(fixtures), len(methodNames))
+	c.Res.ExhaustiveWhat = fmt.Sprintf("all %d signatures of arity 0..3 over {string,bool,int,int64,float64} with each result kind or none (whole boundary pool at arity 0/1, diagonal + seeded tuples above); every one of %d Go types (sized, defined, slice/interface/pointer/map/struct) as single parameter x every pool value of every class, as identity, as result x its pool, and all %d ordered pairs as two parameters; %d Bag methods x pool; reflective constructor of Rec (6 fields) x diagonal of the pools; utils.Convert/ConvertFromIndex for %d target types x every pool value; %d histories (%d calls) over %d struct types sharing %d method names with different arities / parameter types / result types / receivers (plus functions sharing names across VMs), each in a fresh process: for every shared name an Eulerian tour of its callees (every ordered pair adjacent) started at every callee, forwards and backwards, interleaved over two VMs and TempVMs, plus seeded random histories; %d concurrent / re-entrant cases over %d callees (5 functions, 5 methods of 2 shared objects, arity 1..4): EVERY interleaving of the argument conversions of two callers (arity 1..4) and of three callers (arity 1..2) driven deterministically through gated argument values, seeded schedules of 3..16 callers, re-entrant calls from the conversion of every slot (depth 1..3) and from the Go code (depth 1..2), free-running 2/4/8/16 goroutines, spawn()ed script closures (2/4/8 workers)", nsig, len(allTypes), len(allTypes)*len(allTypes), len(bagMethods), len(genProbes), nh, nhc, len(fixtures), len(methodNames), nconc, len(concCallees))
 	if h.m != nil {
 		c.Res.ModelLines = h.m.Lines
 	}
